@@ -5,6 +5,7 @@
 -/
 import Rox.Api
 import Rox.Lemmas.Children
+import Rox.Lemmas.AxisSpec
 
 namespace Rox.Props.C11
 open Rox Rox.Api Rox.Spec Rox.Lemmas
@@ -132,5 +133,38 @@ theorem children_deque (T : Tables) (txt : Bytes) (opt : Opt) (d : Doc)
         absIt d.nodes p it' = (absIt d.nodes p it).dropLast) :=
   ⟨children_next d (parse_linkWF T txt opt d h) p it hr,
    children_nextBack d (parse_linkWF T txt opt d h) p it hr⟩
+
+/-- **Every traversal facility is the function of the tree its documentation says** (every node
+of every parsed document: `parse_linkWF` and `parse_size_le_limit` supply the hypotheses): the axis
+iterators `ancestors`, `prev_siblings`, `next_siblings`, `first_children`, `last_children` start at
+the node itself and follow the step determined by the parent links alone (`stepSpec`: the parent;
+the greatest smaller / least greater id with the same parent; `id + 1` if the node has a child; the
+greatest id whose parent is the node); the `*_element` variants are that sequence without its first
+item, filtered to the first element; `children` forward and backward is the list of nodes whose
+parent is the node, in id order, and `first_element_child` / `last_element_child` its first / last
+element; `has_children` and `has_siblings` are determined by the neighbours; `descendants` is the id
+interval up to the next subtree. -/
+theorem traversals_are_functions_of_the_tree (T : Tables) (txt : Bytes) (opt : Opt) (d : Doc)
+    (hlim : opt.nodesLimit ≤ 4294967295) (h : parse T txt opt = .ok d) (i : Nat) (hi : i < d.nodes.size)
+    (a : Axis) :
+    axisList d a (fuelN d) (some i) = .ok (iterate (stepSpec d.nodes a) d.nodes.size i) ∧
+    axisElement d a i = .ok (((iterate (stepSpec d.nodes a) d.nodes.size i).drop 1).find?
+        fun j => kindIs d.nodes j Kind.isElement) ∧
+    (∃ it, children d i = .ok it ∧
+      childrenList d (fuelN d) it = .ok (kidsIn d.nodes i 0 (d.nodes.size - 1)) ∧
+      childrenRevList d (fuelN d) it = .ok (kidsIn d.nodes i 0 (d.nodes.size - 1)).reverse ∧
+      firstElementChild d i =
+        .ok ((kidsIn d.nodes i 0 (d.nodes.size - 1)).find? fun j => kindIs d.nodes j Kind.isElement) ∧
+      lastElementChild d i =
+        .ok ((kidsIn d.nodes i 0 (d.nodes.size - 1)).reverse.find? fun j => kindIs d.nodes j Kind.isElement)) ∧
+    hasChildren d i = .ok (lastChildSpec d.nodes i).isSome ∧
+    hasSiblings d i = .ok ((stepSpec d.nodes .prevSiblings i).isSome || (nextSibSpec d.nodes i).isSome) ∧
+    descendants d i = .ok ⟨i, (nextSubtreeSpec d.nodes i).getD d.nodes.size⟩ := by
+  have hw := parse_linkWF T txt opt d h
+  have hs : d.nodes.size ≤ 4294967295 := by
+    have := parse_size_le_limit T txt opt d h; omega
+  have hh := has_is_spec d hw i hi
+  exact ⟨axisList_is_spec d hw hs a i hi, axisElement_is_spec d hw hs a i hi,
+    children_is_spec d hw hs i hi, hh.1, hh.2, descendants_is_spec d hw i hi⟩
 
 end Rox.Props.C11
